@@ -108,7 +108,7 @@ def run(res):
                 f.insert(pos, sn)
                 nsei += 1
         nals = S.flatten(frames)
-        data = S.stream_bytes(r, nals, sc=r.choice(["four", "mixed"]))
+        data = S.stream_bytes(r, nals, sc=r.choice(["four", "mixed"]), tz_prob=r.choice([0.05, 0.5]))   # zero bytes after NALs (Annex B trailing_zero_8bits)
         cmd = r.choice(["convert", "demux", "remove"])
         for drop in (1, 0):
             opts = {"drop": drop}
